@@ -357,6 +357,12 @@ def gen_cases(tier, rng):
     for pr in sorted(probes):
         for calls in (["results"], ["query", "query"], ["wait"]):
             yield {"op": "exp.history", "outcomes": [["ok", "pending", 1], ["ok", pr, 2], ["ok", "finished", 3]], "calls": calls}
+    # --- long waits inside ONE blocking call: far more non-terminal replies than any recursion limit or small counter
+    for N in ((1500, 4000) if thorough else (1500,)):
+        for call in ("results", "wait"):
+            for last in ("finished", "cancelled"):
+                outs = [["ok", "pending", 1]] + [["ok", "active" if i % 3 else "pending", i + 2] for i in range(N)] + [["ok", last, N + 2]]
+                yield {"op": "exp.history", "outcomes": outs, "calls": [call, "query"]}
     # --- experiment histories with transport faults: random
     for _ in range(20000 if thorough else 3000):
         n = rng.randint(1, 14)
